@@ -667,17 +667,16 @@ impl BoundedVariantRange {
     }
 
     pub fn union(self, other: impl Into<NaturalRange>) -> VariantRange {
-        match NaturalRange::by_lower_and_upper_with(
+        // The union of a variant range and any other range only converges when its bounds have
+        // saturated.
+        Self::from_saturated(NaturalRange::by_lower_and_upper_with(
             self.into(),
             other.into(),
             |LowerUpper { lower, upper }| LowerUpper {
                 lower: cmp::min(lower.lhs, lower.rhs),
                 upper: cmp::max(upper.lhs, upper.rhs),
             },
-        ) {
-            Variance::Variant(range) => range,
-            _ => unreachable!(),
-        }
+        ))
     }
 
     pub fn translation(self, vector: usize) -> Self {
